@@ -27,6 +27,8 @@ def check_cross(C, drv, gp, fa, mo, pf, pm, np, parents=None, hist=None):
     finally:
         sc.remove()
     rp = dict(how='cross', father=T.enc_tree(father), mother=T.enc_tree(mother), pf=pf, pm=pm)
+    if father is mother:
+        rp['same_object'] = True
     if hist:
         # the parents are offspring of earlier crossovers: the replay re-runs the whole history
         rp['history'] = list(hist)
@@ -48,6 +50,8 @@ def check_cross(C, drv, gp, fa, mo, pf, pm, np, parents=None, hist=None):
     # two *new* trees, parents untouched, multiset conserved
     if o1 is father or o2 is mother or set(gpops.node_ids(o1) + gpops.node_ids(o2)) & set(fids + mids):
         C.issue('offspring-not-new', 'oracle', rp)
+    if o1 is o2 or set(gpops.node_ids(o1)) & set(gpops.node_ids(o2)):
+        C.issue('offspring-share-nodes', 'oracle', rp)
     if T.canon(father) != fb or T.canon(mother) != mb or gpops.node_ids(father) != fids or gpops.node_ids(mother) != mids:
         C.issue('crossover-changed-parent', 'oracle', rp)
     if gpops.labels(o1) + gpops.labels(o2) != gpops.labels(father) + gpops.labels(mother):
@@ -208,6 +212,12 @@ def check(ctx):
                 for pf in range(1, T.shape_size(fa) + 2):
                     for pm in range(1, T.shape_size(mo) + 2):
                         check_cross(C, drv, gp, fa, mo, pf, pm, np)
+        # the same individual as both parents (the tournament may pair an index with itself): two *new* trees again
+        for fa in [s_ for s_ in T.shapes_upto(2) if T.shape_size(s_) >= 2] + [s_ for s_ in T.shapes_upto(3) if T.shape_size(s_) >= 5][:12]:
+            for pf in range(1, T.shape_size(fa) + 1):
+                for pm in range(1, T.shape_size(fa) + 1):
+                    t_ = T.build(fa, terminals=[np.array([[0.25]]), np.array([[0.75]])], term_ids=[0, 1])
+                    check_cross(C, drv, gp, None, None, pf, pm, np, parents=(t_, t_), hist=None)
         C.exhaustive = True
         C.extra['exhaustive_over'] = f'_cross: all {len(shapes) ** 2} ordered pairs of parent shapes up to depth 2 x every pair of points 1..n_nodes+1'
         # multi-step histories: offspring of one crossover are the parents of the next
@@ -272,6 +282,8 @@ def replay(prop, payload):
     try:
         if payload['how'] == 'cross':
             f, m = decode(payload['father']), decode(payload['mother'])
+            if payload.get('same_object'):
+                m = f
             if payload.get('history'):
                 # re-run the earlier crossovers on the real code: their offspring are this step's parents
                 h0 = payload['history'][0]
@@ -297,7 +309,8 @@ def replay(prop, payload):
                 e2 = gpops.replace_slot(m, sm[0], sm[1], fsub)
             else:
                 e1, e2 = fstruct, mstruct
-            return (gpops.struct(o1) != e1 or gpops.struct(o2) != e2 or o1 is f or o2 is m
+            return (gpops.struct(o1) != e1 or gpops.struct(o2) != e2 or o1 is f or o2 is m or o1 is o2
+                    or bool(set(gpops.node_ids(o1)) & set(gpops.node_ids(o2)))
                     or T.canon(f) != fb or T.canon(m) != mb)
         if payload['how'] == 'repro':
             check_repro(C, drv, gp, len(payload['fitness']), payload['fitness'], payload['selected'])
